@@ -205,7 +205,7 @@ ASSUMPTIONS = [
     'refusal arguments are JSON values without bytes',
     'threaded server: sequential executions only (thread races are C20)',
 ]
-BUDGET = {'quick': 2000, 'thorough': 64000}
+BUDGET = {'quick': 8000, 'thorough': 80000}
 FLOOR = {'quick': 150, 'thorough': 5000}
 
 
